@@ -327,7 +327,11 @@ def run(tier, rep):
         e = np.asarray(est)
         nchk += err.size
         if err.shape != e.shape:
-            continue
+            try:
+                e = np.broadcast_to(e.reshape(-1) if e.size == err.size else e, err.shape) if e.size != err.size else e.reshape(err.shape)
+            except ValueError:
+                rep.violation('record:%s:estimate-shape' % cls, dict(case=name, value_shape=list(err.shape), estimate_shape=list(np.shape(est))), '%s: error_estimate of shape %s cannot be matched with the value of shape %s' % (name, np.shape(est), err.shape))
+                continue
         bad = err > K_HONEST * e + floor
         if bad.any():
             i = int(np.argmax(bad))
